@@ -505,6 +505,102 @@ def schedule_part_timeout(rec, shard, nshards, thorough):
     rec.extra["answer_vs_timeout_schedules"] = rec.extra.get("answer_vs_timeout_schedules", 0) + n
 
 
+def install_points_prompt():
+    from dv import sched, simkernel as sk
+    mods = sk.load_node()
+    A = mods["application"].Application
+    sched.clear()
+    # every line of the sender up to its wait, and the delivery of the answer
+    return sched.install({A.send_request: None, A.receive_answer: None})
+
+
+def prompt_answer(decisions):
+    """The peer answers as soon as the request is on the wire - possibly before the sending thread has got any further
+    than handing the request to the node.  The answer arrived well within the sender's timeout: the sender must get it,
+    and nothing goes to the unexpected-answer handler."""
+    from dv import sched
+    from diameter.message.commands import CreditControlRequest
+    w = W.NodeWorld({"peers": [{"name": "peer1.example", "ip": ["10.1.1.1"]}],
+                     "apps": [{"app_id": 4, "auth": True, "peers": [0], "handler": "answer"}],
+                     "node_timers": {"idle": 5000, "dwa": 50, "cer": 50, "cea": 50, "wakeup": 50}})
+    try:
+        w.start()
+        c = w.handshake_in("peer1.example", auth=[4], ip="10.1.1.1", hbh=0x100)
+        app = w.apps[0]
+        m = CreditControlRequest()
+        m.session_id, m.origin_host, m.origin_realm = "n;1", W.NODE_HOST.encode(), W.NODE_REALM.encode()
+        m.destination_realm, m.service_context_id = W.NODE_REALM.encode(), "x"
+        m.cc_request_type, m.cc_request_number = 1, 0
+        m.header.end_to_end_identifier = 0x5300
+        n0 = len(c.refresh())
+        ex = sched.Explorer(decisions)
+        sched.attach(w.k, ex)
+        fed = []
+
+        def on_wire():
+            return [f for f in c.refresh()[n0:] if f.is_request and f.code == 272]
+
+        def feeder():
+            w.k.block(lambda: bool(on_wire()), timeout=4)
+            reqs = on_wire()
+            if reqs:
+                fed.append(reqs[0])
+                w.feed_msg(c, {"k": "ANS", "host": "peer1.example", "hbh": reqs[0].h["hbh"], "e2e": reqs[0].h["e2e"]}, run=False)
+        for t in w.k.threads:                       # creation order: the node's threads, the feeder, the sender - so that
+            w.k.creation_index[t]                   # by default the answer travels before a preempted sender carries on
+        w.k.spawn(feeder, name="feeder")
+        n_ans = len(w.answers_seen)
+        ex.armed = True
+        box = w.k.spawn(lambda: app.send_request(m, timeout=5), name="sender")
+        w.k.run()
+        ex.armed = False
+        w.advance(6)
+        problems = []
+        unexpected = [a for a in w.answers_seen[n_ans:]]
+        if not fed:
+            problems.append(("setup", "no request was written"))
+        elif not box["done"]:
+            problems.append(("sender-blocked", "send_request still blocked after its timeout"))
+        elif box["exc"] is None:
+            r = box["result"]
+            if r is None or r.header.end_to_end_identifier != 0x5300:
+                problems.append(("wrong-answer", f"sender was handed {r!r}"))
+            if unexpected:
+                problems.append(("answer-delivered-twice", f"sender got the answer and handle_answer saw {unexpected}"))
+        elif isinstance(box["exc"], TimeoutError):
+            problems.append(("sender-timed-out", f"the answer arrived at once, the sender timed out after 5 s; handle_answer saw {unexpected}"))
+        else:
+            problems.append((f"sender-error/{type(box['exc']).__name__}", repr(box["exc"])))
+        for sig, d in W.monitor_threads(w):
+            problems.append((f"thread-died/{sig}", d))
+        return ex.trace, problems
+    finally:
+        w.close()
+
+
+def schedule_part_prompt(rec, shard, nshards, thorough):
+    from dv import sched
+    from dv.common import fp
+    info = install_points_prompt()
+    if shard == 0:
+        rec.extra["preemption_functions_prompt_answer"] = info
+    holder = {}
+
+    def run_one(dec):
+        tr, problems = prompt_answer(dec)
+        holder["last"] = problems
+        return tr
+    n = 0
+    for dec, trace in sched.enumerate_schedules(run_one, 3 if thorough else 2, shard, nshards):
+        case = {"prompt_answer": True, "schedule": {str(i): c for i, c in sorted(dec.items())}}
+        for kind, detail in holder["last"]:
+            rec.violation(f"C10/prompt-answer/{kind}", case, detail)
+        n += 1
+        rec.case(fp("sched-prompt", tuple(sorted(dec.items()))) if dec else None,
+                 ["schedule-exploration", "prompt-answer", f"deviations:{len(dec)}"], sample=lambda: dict(case, choice_points=len(trace)))
+    rec.extra["prompt_answer_schedules"] = rec.extra.get("prompt_answer_schedules", 0) + n
+
+
 def equal_hop_by_hop_on_two_connections(rec):
     """Hop-by-hop identifiers are unique per connection only.  With every sequence generator starting at the same
     value (an outcome of the real randomness, scripted here) two requests of one application that are outstanding
@@ -781,6 +877,7 @@ def shard_main(shard, nshards, tier, scale):
     schedule_part(rec, shard, nshards, thorough)
     schedule_part_loss(rec, shard, nshards, thorough)
     schedule_part_timeout(rec, shard, nshards, thorough)
+    schedule_part_prompt(rec, shard, nshards, thorough)
     n = int((10000 if thorough else 800) * scale)
 
     def body(case):
@@ -800,7 +897,7 @@ def run(tier, scale=1.0):
     rec = Recorder(PID)
     for d in hyp.pool_run(shard_main, (tier, scale)):
         rec.merge(d)
-    required = {"slow-selection:dpr-during-callback": 1, "hop-by-hop:set-by-caller": 1, "request:untyped": 1, "request:no-destination-realm": 1, "destination-host:a-peer": 1, "destination-host:not-a-peer": 1, "answer-vs-timeout": 1, "slow-selection:chosen-lost:True": 1, "slow-selection:outcome:sent": 1, "slow-selection:outcome:not-routable": 1,
+    required = {"slow-selection:dpr-during-callback": 1, "hop-by-hop:set-by-caller": 1, "request:untyped": 1, "request:no-destination-realm": 1, "destination-host:a-peer": 1, "destination-host:not-a-peer": 1, "answer-vs-timeout": 1, "prompt-answer": 1, "slow-selection:chosen-lost:True": 1, "slow-selection:outcome:sent": 1, "slow-selection:outcome:not-routable": 1,
                 "slow-selection:redialled:True": 1, "send-vs-loss": 1, "equal-hop-by-hop-two-connections": 1, "schedule-exploration": 1, "senders:3": 1, "npeers:4": 1, "napps:3": 1, "select:first": 1, "select:None": 1, "state:waiting-dwa": 1,
                 "state:disconnecting": 1, "state:disconnecting-late-dwa": 1, "state:awaiting": 1, "state:closed": 1, "sends:4": 1}
     return finish(rec, tier=tier, level="exploration", rule=RULE, assumptions=ASSUME, t0=t0,
@@ -823,6 +920,16 @@ def replay(doc):
         install_points_timeout()
         _, problems = answer_vs_timeout({int(i): c for i, c in case["schedule"].items()})
         sigs = [f"C10/answer-vs-timeout/{k}" for k, _ in problems]
+        if doc["signature"] in sigs:
+            print(f"  replayed: {problems[0][1][:300]}")
+            print(f"VIOLATION property={PID} replay=(replay)")
+            return 1
+        print(f"[{PID}] replay: signature {doc['signature']} does not reproduce (got {sigs})")
+        return 0
+    if case.get("prompt_answer"):
+        install_points_prompt()
+        _, problems = prompt_answer({int(i): c for i, c in case["schedule"].items()})
+        sigs = [f"C10/prompt-answer/{k}" for k, _ in problems]
         if doc["signature"] in sigs:
             print(f"  replayed: {problems[0][1][:300]}")
             print(f"VIOLATION property={PID} replay=(replay)")
